@@ -83,7 +83,11 @@
 (*                              not bring it back in sync                  *)
 (*   DevSeenBlocksResync        ... but keeps its seen cache: a replayed   *)
 (*                              announcement it saw before sleeping is     *)
-(*                              refused although the route is gone         *)
+(*                              refused although the route is gone (fix    *)
+(*                              87c660f made replays keep the origin's     *)
+(*                              sequence; repaired by forgetting the seen  *)
+(*                              entries of the routes removed on           *)
+(*                              disconnect - both variants are bound)      *)
 (*   DevNoCommandSlot           StateQueue has no slot for commands        *)
 (*                              (QueuedState.SleepCmd / WakeCmd are never  *)
 (*                              filled)                                    *)
@@ -305,8 +309,14 @@ Live(f) ==
 PeerSleeps(p) ==
   /\ Quiet /\ mode[p] = "awake" /\ nsleeps < MaxSleeps
   /\ mode' = [mode EXCEPT ![p] = "sleeping"]
-  \* as built the sleeper forgets every route it learned via A (but not its seen cache)
-  /\ rcv' = IF D("DevSleeperDropsTable") THEN [rcv EXCEPT ![p].tab = [o \in Origins |-> 0]] ELSE rcv
+  \* as built the sleeper forgets every route it learned via A (handlePeerDisconnect).  Its seen cache: with
+  \* DevSeenBlocksResync it is left alone; without (Flooder.OnPeerDisconnected of the repaired tree) the entries
+  \* <origin, sequence> of exactly the removed routes are forgotten too, so that their replay can restore them
+  /\ rcv' = IF D("DevSleeperDropsTable")
+              THEN [rcv EXCEPT ![p].tab = [o \in Origins |-> 0],
+                               ![p].seen = IF D("DevSeenBlocksResync") THEN @
+                                           ELSE @ \ {[o |-> o, n |-> rcv[p].tab[o]] : o \in {x \in Origins : rcv[p].tab[x] # 0}}]
+              ELSE rcv
   /\ nsleeps' = nsleeps + 1
   /\ last' = [act |-> "PeerSleeps", p |-> p,
               dev |-> IF D("DevSleeperDropsTable") /\ rcv'[p] # rcv[p] THEN {"DevSleeperDropsTable"} ELSE {}]
@@ -321,14 +331,12 @@ ResyncFrames ==
 \* the sleeper handles the replayed frames (announcements only: their order does not matter)
 RECURSIVE ApplyAll(_, _)
 ApplyAll(r, F) == IF F = {} THEN r ELSE LET f == CHOOSE x \in F : TRUE IN ApplyAll(Apply(r, f).r, F \ {f})
-\* DevSeenBlocksResync off: a sleeper that dropped its table also forgot that it saw those announcements
-Forget(r) == IF D("DevSleeperDropsTable") /\ ~D("DevSeenBlocksResync") THEN [r EXCEPT !.seen = {}] ELSE r
 
 PeerPolls(p) ==
   /\ Quiet /\ mode[p] = "sleeping"
   /\ mode' = [mode EXCEPT ![p] = "awake"]
   /\ IF D("DevAgentNeverQueues")
-       THEN /\ rcv' = [rcv EXCEPT ![p] = ApplyAll(Forget(rcv[p]), ResyncFrames)]
+       THEN /\ rcv' = [rcv EXCEPT ![p] = ApplyAll(rcv[p], ResyncFrames)]
             /\ draining' = draining
             /\ last' = [act |-> "PeerPolls", p |-> p, sent |-> ResyncFrames, queued |-> FALSE,
                         dev |-> {"DevAgentNeverQueues"}
